@@ -7,6 +7,7 @@ From XcpModel Require Import Extracted.
 From XcpProofs Require Import ExtractedOk.
 From XcpModel Require Import ConcBlock ConcOutcome.
 From XcpProofs Require Import ConcBlockProofs ConcOutcomeProofs.
+From XcpModel Require Import Walker Ops.
 From Coq Require Import Permutation.
 From Coq Require Import Permutation.
 
@@ -150,6 +151,10 @@ Proof.
     now rewrite Nat2N.id.
 Qed.
 
+Theorem C01_src_new_and_copy_file_order :
+  x_copy_new_steps = copy_new_steps /\ x_copy_file_steps = copy_file_steps /\ x_queue_file_blocks_steps = queue_file_blocks_steps.
+Proof. split; [exact x_copy_new_steps_ok|split; [exact x_copy_file_steps_ok|exact x_queue_file_blocks_steps_ok]]. Qed.
+
 Print Assumptions C01_dest_fresh_after_new.
 Print Assumptions C01_blocks_partition.
 Print Assumptions C01_copy_bytes_exact.
@@ -160,3 +165,4 @@ Print Assumptions C01_src_block_partition.
 Print Assumptions C01_src_copy_bytes_loop.
 Print Assumptions C01_src_noprogress_block_size.
 Print Assumptions C01_every_schedule_every_byte_once.
+Print Assumptions C01_src_new_and_copy_file_order.
